@@ -302,48 +302,193 @@ def clang_numbers(progs, workdir):
 
 # ------------------------------------------------------------------ the check
 def read_cases(out):
-    cases, profile = [], None
-    notes = []
+    cases, notes = [], []
     for line in out.splitlines():
         if line.startswith("#"):
             notes.append(line[1:])
             continue
         parts = line.split("\t")
-        if len(parts) != 4:
+        if len(parts) == 4:
+            parts.append("")
+        if len(parts) != 5:
             continue
         cases.append(tuple(parts))
     return cases, notes
 
 
+def side_path(kind):
+    import importlib
+    ex = importlib.import_module("extractors.c18")
+    return ex.side_path(kind)
+
+
+# ------------------------------------------------------------------ generator audit
+def ty_features(t, acc, depth=0):
+    k = t[0]
+    if k == "prim":
+        acc["type:" + t[1]] += 1
+    elif k in ("ptr", "slice"):
+        acc["type:" + k] += 1
+        inner = t[1]
+        while inner[0] == "arr":
+            inner = inner[1]
+        if inner[0] == "struct":
+            acc[k + "-to-struct"] += 1
+    elif k == "struct":
+        acc["type:struct-by-value"] += 1
+    else:
+        acc["type:array"] += 1
+        n = t[2]
+        acc["array-len:" + ("0" if n == 0 else "1" if n == 1 else "2-16" if n <= 16 else "17-300" if n <= 300 else ">=2^29")] += 1
+        acc["array-depth:%d" % (depth + 1)] += 1
+        if t[1][0] == "struct":
+            acc["array-of-struct"] += 1
+        ty_features(t[1], acc, depth + 1)
+
+
+def nesting_depth(prog):
+    defs = dict(prog)
+    memo = {}
+
+    def d(n, stack=()):
+        if n in memo:
+            return memo[n]
+        if n not in defs or n in stack:
+            return 0
+        r = 1 + max([0] + [d(byvalue_dep(t), stack + (n,)) for t in defs[n] if byvalue_dep(t) is not None])
+        memo[n] = r
+        return r
+    return max([0] + [d(n) for n, _ in prog])
+
+
+def audit(cases):
+    import collections
+    acc = collections.Counter()
+    for q, o, comp, cls, detail in cases:
+        kind = o.split()[0]
+        acc["outcome:" + kind + (":" + detail if detail else "")] += 1
+        acc["class:%s->%s" % (cls, kind)] += 1
+        if comp.startswith("T:"):
+            t, _ = parse_ty(comp[2:], 0)
+            ty_features(t, acc)
+            continue
+        prog = parse_prog(comp)
+        ns = len(prog)
+        acc["structs:" + ("1" if ns == 1 else "2-4" if ns <= 4 else "5-12" if ns <= 12 else "13-36" if ns <= 36 else ">36")] += 1
+        for _, fs in prog:
+            acc["fields:" + (str(len(fs)) if len(fs) <= 2 else "3-5" if len(fs) <= 5 else "6-8" if len(fs) <= 8 else ">8")] += 1
+            for i, t in enumerate(fs):
+                ty_features(t, acc)
+                if byvalue_dep(t) is not None:
+                    acc["by-value-position:" + ("first" if i == 0 else "last" if i == len(fs) - 1 else "middle")] += 1
+        acc["nesting-depth:%d" % min(nesting_depth(prog), 6)] += 1
+        names = [n for n, _ in prog]
+        if len(set(names)) == len(names) and len(prog) > 1:
+            # declaration order relative to the dependencies
+            pos = {n: i for i, n in enumerate(names)}
+            fwd = bwd = 0
+            for n, fs in prog:
+                for t in fs:
+                    d = byvalue_dep(t)
+                    if d in pos and d != n:
+                        if pos[d] < pos[n]:
+                            fwd += 1
+                        else:
+                            bwd += 1
+            if fwd or bwd:
+                acc["order:" + ("dependencies-first" if bwd == 0 else "dependents-first" if fwd == 0 else "mixed")] += 1
+    return dict(sorted(acc.items()))
+
+
+REQUIRED = (["outcome:OLaid", "outcome:ODiag:selfref", "outcome:ODiag:cycle", "outcome:OUnresolved", "outcome:OTooLarge",
+             "outcome:ONeedsContext", "outcome:OSizeAlign", "type:ptr", "type:slice", "type:struct-by-value", "type:array",
+             "array-of-struct", "ptr-to-struct", "array-len:0", "array-len:1", "array-len:2-16", "array-len:17-300",
+             "array-len:>=2^29", "array-depth:2", "array-depth:3", "nesting-depth:2", "nesting-depth:3", "nesting-depth:4",
+             "order:dependencies-first", "order:dependents-first", "order:mixed", "by-value-position:first",
+             "by-value-position:middle", "by-value-position:last", "structs:1", "structs:2-4", "structs:5-12", "structs:13-36",
+             "fields:0", "fields:1", "fields:6-8"] + ["type:" + p for p in PRIM_NAMES])
+
+
+def clang_features(progs):
+    import collections
+    acc = collections.Counter()
+    for p in progs:
+        f = collections.Counter()
+        for _, fs in p:
+            for t in fs:
+                ty_features(t, f)
+        for k in f:
+            acc[k] += 1          # number of validated programs that have the feature
+        acc["nesting-depth:%d" % min(nesting_depth(p), 6)] += 1
+        sp = py_spec(p)
+        # tail padding: a struct whose size is larger than the end of its last member, used by value or in an array elsewhere
+        defs = dict(p)
+        padded = set()
+        for n, fs in p:
+            offs, size, al, _ = sp[n]
+            if fs:
+                last = fs[-1]
+                lsz = _size_of(last, sp)
+                if offs[-1] + lsz < size:
+                    padded.add(n)
+        if padded:
+            acc["struct-with-tail-padding"] += 1
+            if any(byvalue_dep(t) in padded for _, fs in p for t in fs):
+                acc["tail-padded-struct-nested-by-value"] += 1
+            if any(t[0] == "arr" and byvalue_dep(t) in padded for _, fs in p for t in fs):
+                acc["array-of-tail-padded-struct"] += 1
+    return dict(sorted(acc.items()))
+
+
+def _size_of(t, sp):
+    k = t[0]
+    if k == "prim":
+        return C_PRIM[t[1]][0]
+    if k == "ptr":
+        return 8
+    if k == "slice":
+        return 16
+    if k == "arr":
+        return _size_of(t[1], sp) * t[2]
+    return sp[t[1]][1]
+
+
+EXPECTED_PHASES = ["detect_self_references", "topological_order", "struct_layout"]
+
+
 def run(ctx):
+    import json
     ctx.level = "proof"
     ctx.cov["trusted_base"] = TRUSTED
     ctx.assumptions = [
-        "the model of layout.rs is the code: checked by the contract tie below in both arithmetic modes",
+        "the model of layout.rs is the code: checked by the contract tie below (dev and release profiles)",
         "Model/SysV.v states what a C compiler for x86-64 System V computes: checked against clang on generated translations",
     ]
-    proved = ctx.prove("C18", extracted=["LayoutTable"])
-    if ctx.tier == "thorough" and proved:
-        ctx.coqchk("C18")
-    ok, out = vlib.coq_make(["Base/CaseCheck.vo", "Model/LayoutObs.vo"])
-    if not ok:
-        ctx.broken.append("coq: model files for the C18 tie do not build")
-        ctx.log(out[-2000:])
-        return
-    n_cases = 260 if ctx.tier == "quick" else 6000
+    thorough = ctx.tier == "thorough"
+    n_cases = 260 if not thorough else 5000
+    seeds = [ctx.seed] if not thorough else [ctx.seed, ctx.seed + 1000, ctx.seed + 2000]
     replay_prog = None
     if getattr(ctx, "replay_file", None):
-        import json
         rp = json.load(open(ctx.replay_file)).get("replay", {})
         replay_prog = rp.get("program") or rp.get("order2")
         if replay_prog:
             n_cases = 0
-    corpus = sorted(os.path.join(vlib.VERIF, "corpus", "C18", f)
-                    for f in (os.listdir(os.path.join(vlib.VERIF, "corpus", "C18"))
-                              if os.path.isdir(os.path.join(vlib.VERIF, "corpus", "C18")) else []) if f.endswith(".txt"))
-    total, distinct, dist = 0, set(), {}
-    oracle_fail = 0
-    wf_progs = []
+    cdir = os.path.join(vlib.VERIF, "corpus", "C18")
+    corpus = sorted(os.path.join(cdir, f) for f in (os.listdir(cdir) if os.path.isdir(cdir) else []) if f.endswith(".txt"))
+    if replay_prog:
+        rf = os.path.join(vlib.CACHE, "c18-replay-%d.txt" % os.getpid())
+        open(rf, "w").write(replay_prog + "\n")
+        corpus = [rf]
+    # message fragments of the previous translator run (refreshed below; the harness has built-in defaults)
+    needles = os.path.join(vlib.CACHE, "c18-needles-%d.txt" % os.getpid())
+    try:
+        fr = json.load(open(side_path("side"))).get("fragments", {})
+    except Exception:
+        fr = {}
+    open(needles, "w").write("".join(f"{k}\t{v}\n" for k, v in fr.items()))
+
+    # ---- 1. run the real code first (both profiles); the executed primitive table feeds the translator
+    runs = {}
     for prof in ["dev", "release"]:
         ok, paths, log = vlib.harness_build(["hx_layout"], profile=prof)
         if not ok:
@@ -351,27 +496,72 @@ def run(ctx):
             ctx.log(log[-3000:])
             return
         outs = []
-        if replay_prog:
-            rf = os.path.join(vlib.CACHE, "c18-replay-%d.txt" % os.getpid())
-            open(rf, "w").write(replay_prog + "\n")
-            corpus = [rf]
         for cf in corpus:
-            rc, o = vlib.sh([paths["hx_layout"], "--seed", "0", "--cases", "0", "--corpus", cf], timeout=300)
+            rc, o = vlib.sh([paths["hx_layout"], "--seed", "0", "--cases", "0", "--corpus", cf, "--needles", needles], timeout=300)
             if rc != 0:
                 ctx.violation("hx_layout-crash", "layout harness crashed on the corpus", {"profile": prof, "corpus": cf, "output_tail": o[-1500:]})
                 return
-            # the fixed layout_of lines are repeated per corpus file; keep the corpus programs only
-            outs.append("\n".join(l for l in o.splitlines() if l.startswith("#") or l.endswith("\tcorpus")))
-        cmd = [paths["hx_layout"], "--seed", str(ctx.seed), "--cases", str(n_cases)]
-        if prof == "dev":
-            cmd.append("--api-probe")
-        rc, o = vlib.sh(cmd, timeout=900)
-        if rc != 0:
-            ctx.violation("hx_layout-crash", "layout harness crashed (panic escaped catch_unwind / abort inside layout?)",
-                          {"profile": prof, "output_tail": o[-2000:]})
-            return
-        outs.append(o)
+            outs.append("\n".join(l for l in o.splitlines() if l.startswith("#") or "\tcorpus" in l))
+        for k, sd in enumerate(seeds):
+            cmd = [paths["hx_layout"], "--seed", str(sd), "--cases", str(n_cases), "--needles", needles]
+            if prof == "dev" and k == 0:
+                cmd.append("--api-probe")
+            if k > 0 or replay_prog:
+                cmd.append("--no-grids")
+            rc, o = vlib.sh(cmd, timeout=1200)
+            if rc != 0:
+                ctx.violation("hx_layout-crash", "layout harness crashed (panic escaped catch_unwind / abort inside layout?)",
+                              {"profile": prof, "output_tail": o[-2000:]})
+                return
+            if k > 0:   # the fixed layout_of lines repeat per seed
+                o = "\n".join(l for l in o.splitlines() if not (l.startswith("QLayoutOf (TPrim") and "\tT:" in l and "arr" not in l) or k == 0)
+            outs.append(o)
         cases, notes = read_cases("\n".join(outs))
+        runs[prof] = (cases, notes, paths)
+    executed = {}
+    for q, o, comp, cls, _ in runs["dev"][0]:
+        if cls == "layout_of" and comp[2:] in PRIM_NAMES and o.startswith("OSizeAlign"):
+            nm = {"fnptr": "FnPtr"}.get(comp[2:], comp[2:].capitalize())
+            executed[nm] = [int(x) for x in o.split()[1:3]]
+    for q, o, comp, cls, _ in runs["dev"][0]:          # Ptr / Slice through the pair grid: S1{ptr;..} probes
+        pass
+    # Ptr and Slice have no standalone layout_of line with a prim name: take them from layout_of on ptr(..)/slice(..) cases
+    for q, o, comp, cls, _ in runs["dev"][0]:
+        if cls == "layout_of" and o.startswith("OSizeAlign"):
+            if comp.startswith("T:ptr(") and "Ptr" not in executed:
+                executed["Ptr"] = [int(x) for x in o.split()[1:3]]
+            if comp.startswith("T:slice(") and "Slice" not in executed:
+                executed["Slice"] = [int(x) for x in o.split()[1:3]]
+    if len(executed) == 17:
+        json.dump(executed, open(side_path("executed"), "w"))
+    elif os.path.exists(side_path("executed")):
+        os.remove(side_path("executed"))
+
+    # ---- 2. translate + prove
+    proved = ctx.prove("C18", extracted=["LayoutTable"])
+    if thorough and proved:
+        ctx.coqchk("C18")
+    try:
+        side = json.load(open(side_path("side")))
+    except Exception:
+        side = {}
+    for n in side.get("notes", []):
+        ctx.notes.append("translator: " + n)
+    ctx.cov["translator"] = {"phase_order": side.get("phase_order"), "message_fragments": side.get("fragments"),
+                             "executed_table_crosschecked": len(executed) == 17}
+    if side.get("phase_order") and side["phase_order"] != EXPECTED_PHASES:
+        ctx.broken.append(f"translator: try_compute_layouts runs its phases in the order {side['phase_order']}, the model assumes {EXPECTED_PHASES}")
+    ok, out = vlib.coq_make(["Base/CaseCheck.vo", "Model/LayoutObs.vo"])
+    if not ok:
+        ctx.broken.append("coq: model files for the C18 tie do not build")
+        ctx.log(out[-2000:])
+        return
+
+    # ---- 3. per profile: direct oracle, then the contract tie
+    total, distinct, dist, oracle_fail = 0, set(), {}, 0
+    by_prog = {}
+    for prof in ["dev", "release"]:
+        cases, notes, paths = runs[prof]
         chk = any("overflow_checks=true" in n for n in notes)
         if chk != (prof == "dev"):
             ctx.broken.append(f"harness profile {prof}: overflow checks are {'on' if chk else 'off'}, expected the opposite")
@@ -382,21 +572,18 @@ def run(ctx):
                 what, _, res = txt.partition(": ")
                 what = what.split()[-1]
                 good = res.startswith("ok") if what == "ok" else res.startswith("error:")
-                if what == "toolarge" and "too large" not in res:
-                    good = False
                 if not good:
                     ctx.violation("pipeline-diagnostic:" + what + (":panic" if res.startswith("PANIC") else ""),
                                   "the driver's standard pipeline does not turn a malformed struct definition into an error value",
                                   {"probe": txt, "profile": prof})
         total += len(cases)
-        for q, o, comp, cls in cases:
+        for q, o, comp, cls, _ in cases:
             dist[cls] = dist.get(cls, 0) + 1
             if ";" in comp or "(" in comp:
                 distinct.add((prof, comp))
-        # ---- direct oracle on the implementation's own outputs (no model involved)
         reported = set()
         last_wf = None
-        for q, o, comp, cls in cases:
+        for q, o, comp, cls, _ in cases:
             if not q.startswith("QCompute"):
                 continue
             prog = parse_prog(comp)
@@ -407,7 +594,6 @@ def run(ctx):
                     reported.add(d[0])
                     ctx.violation(d[0], d[1], {"program": comp, "implementation": o, "profile": prof,
                                                "replay_cmd": f"echo '{comp}' > /tmp/c.txt && {paths['hx_layout']} --cases 0 --corpus /tmp/c.txt"})
-            # declaration-order independence, stated directly on outputs: same structs, other order
             if cls == "wf":
                 last_wf = (prog, o, comp)
             elif cls == "wf-perm" and last_wf:
@@ -420,10 +606,9 @@ def run(ctx):
                     oracle_fail += 1
                     ctx.violation("order-dependence", "the same struct definitions in two declaration orders give different layouts",
                                   {"order1": last_wf[2], "result1": last_wf[1], "order2": comp, "result2": o, "profile": prof})
-            if prof == "dev" and cls in ("wf", "wf-probes", "ptrcycle"):
-                wf_progs.append(prog)
-        # ---- contract tie: the Coq model reproduces every observation
-        pairs = [(q, o) for q, o, _, _ in cases]
+            if cls in ("wf-probes", "ptrcycle", "grid-pairs", "grid-align", "grid-array", "grid-nested") and o.startswith("OLaid"):
+                by_prog.setdefault(comp, {"prog": prog, "cls": cls})[prof] = o
+        pairs = [(q, o) for q, o, _, _, _ in cases]
         fails, err = vlib.coq_eval_cases("c18", IMPORTS, "run", "obs_eqb", pairs, shard=max(40, len(pairs) // 16 + 1))
         if err:
             ctx.broken.append("correspondence C18: model evaluation failed")
@@ -440,25 +625,40 @@ def run(ctx):
         if fails:
             ctx.broken.append(f"correspondence C18 ({prof}): model and implementation differ on {len(fails)} cases")
             bad = [cases[i] for i in fails[:6]]
-            mo, _ = vlib.coq_eval_terms("c18", IMPORTS, [f"run ({q})" for q, _, _, _ in bad])
+            mo, _ = vlib.coq_eval_terms("c18", IMPORTS, [f"run ({q})" for q, _, _, _, _ in bad])
             ctx.cov["disagreements"] = [{"program": c, "class": cl, "implementation": o, "model": m, "profile": prof}
-                                        for (q, o, c, cl), m in zip(bad, mo)]
+                                        for (q, o, c, cl, _), m in zip(bad, mo)]
             ctx.log("tie disagreements:", ctx.cov["disagreements"][:2])
         k = len(cases)
         ctx.add_samples([{"program": c, "observed": o, "class": cl, "profile": prof}
-                         for _, o, c, cl in cases[k // 3: k // 3 + 2] + cases[-2:]])
-    # ---- the specification: Coq spec == Python transcription == clang
-    uniq, seen = [], set()
-    for p in wf_progs:
-        key = repr(p)
-        big = max([0] + [v[3] for v in py_spec(p).values()])
-        if key not in seen and big < (1 << 31):
-            seen.add(key)
-            uniq.append(p)
-    n_spec = 150 if ctx.tier == "quick" else 1500
-    uniq = uniq[:n_spec]
+                         for _, o, c, cl, _ in cases[k // 3: k // 3 + 2] + cases[-2:]])
+        if prof == "dev":
+            a = audit(cases)
+            ctx.cov["generator_audit"] = a
+            starved = [r for r in REQUIRED if a.get(r, 0) < (1 if ctx.tier == "quick" and replay_prog else 3)]
+            if starved and not replay_prog:
+                ctx.broken.append("generator audit: classes with fewer than 3 cases in this run: " + ", ".join(starved))
+
+    # ---- 4. the specification: Coq spec == Python transcription == clang == implementation (directly)
+    cand = []
+    for comp, e in by_prog.items():
+        p = e["prog"]
+        if len(set(n for n, _ in p)) != len(p):
+            continue
+        try:
+            big = max([0] + [v[3] for v in py_spec(p).values()])
+        except Undefined:
+            continue
+        if big < (1 << 31):
+            cand.append((comp, e))
+    grids = [c for c in cand if c[1]["cls"].startswith("grid")]
+    rnd = [c for c in cand if not c[1]["cls"].startswith("grid")]
+    n_spec = 150 if not thorough else 2000
+    n_clang = 60 if not thorough else 1200
+    spec_set = grids + rnd[:n_spec]
     spec_pairs = []
-    for p in uniq:
+    for comp, e in spec_set:
+        p = e["prog"]
         sp = py_spec(p)
         spec_pairs.append(("QSpec " + coq_prog(p),
                            "OLaid [" + "; ".join("Some [%s]" % "; ".join(str(x) for x in sp[n][0] + [sp[n][1], sp[n][2]]) for n, _ in p) + "]"))
@@ -467,27 +667,38 @@ def run(ctx):
         ctx.broken.append(f"spec cross-check: Model/SysV.v and the Python oracle's SysV rules differ on {len(fails)} programs" if fails
                           else "spec cross-check: evaluation failed")
         ctx.log((err or "")[-2000:], [spec_pairs[i] for i in fails[:2]])
-    n_clang = 60 if ctx.tier == "quick" else 240
-    cl_progs = uniq[:n_clang]
+    cl_set = grids + rnd[:n_clang]
+    cl_progs = [e["prog"] for _, e in cl_set]
     wd = os.path.join(vlib.CACHE, "c18-clang-%d" % os.getpid())
     if shutil.which("clang") is None:
         ctx.notes.append("clang not installed: the specification was not validated against a C compiler in this run")
         ctx.cov["clang_validated_programs"] = 0
-    else:
+    elif cl_progs:
         nums, log = clang_numbers(cl_progs, wd)
         if nums is None:
             ctx.broken.append("clang validation: the C translation did not compile")
             ctx.log(log)
         else:
-            bad = 0
+            bad = impl_bad = 0
             cl_pairs = []
-            for p, per in zip(cl_progs, nums):
+            for (comp, e), per in zip(cl_set, nums):
+                p = e["prog"]
                 sp = py_spec(p)
                 mine = [sp[n][0] + [sp[n][1], sp[n][2]] for n, _ in p]
                 if mine != per:
                     bad += 1
                     if bad == 1:
-                        ctx.cov["clang_disagreement"] = {"program": " ".join("S%d{..}" % n for n, _ in p), "spec": mine, "clang": per}
+                        ctx.cov["clang_disagreement"] = {"program": comp, "spec": mine, "clang": per}
+                # clang against the implementation's own output on the same program (its declaration
+                # order as generated: dependents first, shuffled, ...); sizeof/alignof through the probes
+                for prof in ("dev", "release"):
+                    if prof in e:
+                        _, offs = parse_obs(e[prof])
+                        if offs != [v[:-2] for v in per]:
+                            impl_bad += 1
+                            if impl_bad == 1:
+                                ctx.violation("clang-mismatch", "offsets computed by compute_layouts differ from clang's __builtin_offsetof/sizeof/_Alignof",
+                                              {"program": comp, "implementation": e[prof], "clang": per, "profile": prof})
                 cl_pairs.append(("QSpec " + coq_prog(p),
                                  "OLaid [" + "; ".join("Some [%s]" % "; ".join(map(str, v)) for v in per) + "]"))
             fails, err = vlib.coq_eval_cases("c18c", IMPORTS, "run", "obs_eqb", cl_pairs, shard=max(20, len(cl_pairs) // 16 + 1))
@@ -496,18 +707,28 @@ def run(ctx):
                 ctx.log((err or "")[-1500:])
             ctx.cov["clang_validated_programs"] = len(cl_progs)
             ctx.cov["clang_validated_structs"] = sum(len(p) for p in cl_progs)
+            ctx.cov["clang_vs_implementation_mismatches"] = impl_bad
+            ctx.cov["clang_feature_coverage"] = clang_features(cl_progs)
+            ctx.cov["clang_classes"] = {c: sum(1 for _, e in cl_set if e["cls"] == c) for c in sorted(set(e["cls"] for _, e in cl_set))}
             ctx.cov["clang"] = vlib.sh(["clang", "--version"])[1].split("\n")[0]
     shutil.rmtree(wd, ignore_errors=True)
+    for f in (needles,):
+        try:
+            os.remove(f)
+        except OSError:
+            pass
     ctx.cov["evaluations"] = total + len(spec_pairs)
     ctx.cov["distinct_nontrivial"] = len(distinct)
     ctx.cov["direct_oracle_failures"] = oracle_fail
     ctx.cov["input_distribution"] = dist
     ctx.cov["spec_crosscheck_programs"] = len(spec_pairs)
     ctx.cov["rule"] = (
-        "hx_layout: per seed, struct graphs with 1-12 structs x 0-8 fields over 11 scalar types, str, fnptr, param, void, "
-        "ptr/slice (pointing anywhere, including back edges), arrays (length 0..300, nested to depth 3, occasionally 2^29..2^33) and "
-        "by-value nesting along a random rank order; each well-formed graph in three declaration orders (dependencies first / "
-        "reversed / shuffled) plus a probe program that exposes sizeof and alignof of every struct as offsets; malformed streams: "
-        "duplicate names, undefined names, direct self reference (also through arrays), by-value cycles of length 2-5, legal pointer "
-        "cycles, sizes around 2^32 (huge arrays, 27-31 level doubling chains); layout_of on random types; dev and release "
-        "profiles. distinct = distinct (profile, program) pairs with at least one field")
+        "hx_layout, per profile: (a) complete grids: every ordered pair of the 17 field-type classes, align_to on offsets 0..17 for every "
+        "alignment class, array stride for every element class x lengths {0,1,2,3,5}, three-level nesting with arrays of tail-padded "
+        "structs in three declaration orders, each with sizeof/alignof probes; (b) per seed, struct graphs with 1-12 structs x 0-8 fields "
+        "over 11 scalar types, str, fnptr, param, void, ptr/slice (pointing anywhere, including back edges), arrays (length 0..300, nested "
+        "to depth 3) and by-value nesting along a random rank order, each well-formed graph in three declaration orders plus its probe "
+        "program; (c) malformed streams: duplicate names, undefined names, self reference (also through arrays), by-value cycles of length "
+        "2-5, two malformations at once, legal pointer cycles, sizes around 2^32 (byte arrays ending within 17 bytes of 2^32, huge arrays, "
+        "27-31 level doubling chains); (d) layout_of on random types; (e) corpus/C18 first. clang validates grids + random probe programs. "
+        "distinct = distinct (profile, program) pairs with at least one field")
